@@ -105,9 +105,11 @@ func (gs *GraphicsState) Restore() error {
 	return nil
 }
 
-// Transform applies a transformation matrix to CTM (cm operator)
+// Transform applies a transformation matrix to CTM (cm operator).
+// Per ISO 32000-1 8.3.4 the new matrix is pre-multiplied: CTM' = m x CTM,
+// so that m acts on user-space coordinates before the existing CTM does.
 func (gs *GraphicsState) Transform(m model.Matrix) {
-	gs.CTM = gs.CTM.Multiply(m)
+	gs.CTM = m.Multiply(gs.CTM)
 }
 
 // SetLineWidth sets the line width (w operator)
@@ -180,9 +182,10 @@ func (gs *GraphicsState) SetTextMatrix(m model.Matrix) {
 
 // TranslateText translates the text matrix (Td operator)
 func (gs *GraphicsState) TranslateText(tx, ty float64) {
-	// Td is equivalent to: Tm = Tlm * T(tx, ty)
+	// Per ISO 32000-1 9.4.2: Tm = Tlm = T(tx, ty) x Tlm, i.e. the offset is
+	// expressed in the (possibly scaled or rotated) text line space.
 	translation := model.Translate(tx, ty)
-	gs.Text.TextLineMatrix = gs.Text.TextLineMatrix.Multiply(translation)
+	gs.Text.TextLineMatrix = translation.Multiply(gs.Text.TextLineMatrix)
 	gs.Text.TextMatrix = gs.Text.TextLineMatrix
 }
 
